@@ -334,7 +334,8 @@ fn slice_root<B: BitmapSlice>(
 ) -> u64 {
     let n = placed.len;
     let state = labels(n);
-    let npages = bm.len();
+    // the number of pages the tracked byte size calls for, not the number the bitmap admits to
+    let npages = bm.byte_size().div_ceil(p);
     let mut t = 0u64;
     // enumerate chains breadth first over the model extents
     let mut chains: Vec<(Vec<Link>, (usize, usize))> = vec![(vec![], (0, n))];
@@ -460,7 +461,8 @@ fn histories<B: BitmapSlice>(v: &Verdicts, what: &str, placed: &Placed, vs: &Vol
         alpha.push(HistOp::Mem(Op::Write { off: w + p, len: 1, mis: 0 }));
         alpha.push(HistOp::ResetRange(w - 1, 2));
     }
-    let npages = bm.len();
+    // the number of pages the tracked byte size calls for, not the number the bitmap admits to
+    let npages = bm.byte_size().div_ceil(p);
     let mut t = 0u64;
     let na = alpha.len();
     for code in 0..na.pow(depth as u32) {
@@ -615,7 +617,8 @@ fn big_writes(v: &Verdicts, p: usize) -> u64 {
     // SAFETY: placed outlives vs
     let vs = unsafe { VolatileSlice::with_bitmap(placed.ptr(), n, bm.slice_at(0), None) };
     let what = "slice/RefSlice-256KiB";
-    let npages = bm.len();
+    // the number of pages the tracked byte size calls for, not the number the bitmap admits to
+    let npages = bm.byte_size().div_ceil(p);
     let init = labels(n);
     let mut t = 0u64;
     for (off, len) in [(0usize, 65536usize), (7, 65537), (0x10007, 98304), (1, 131073), (0x20000 - 3, 65540), (p.max(2) - 1, 65536 + p)] {
